@@ -214,6 +214,10 @@ def main():
             os.environ.clear()
             os.environ.update(saved_env)
             os.chdir(job["cwd"])
+        # the inputs may be edited in place between two generations of one process (same inode, same directory entry)
+        for w_ in pre.get("then_write") or []:
+            with open(w_["path"], "w", encoding="utf-8") as f_:
+                f_.write(w_["text"])
         result["pre_runs"].append({"outcome": oc, "http_upto": len(result["http"])})
     state["armed"] = True
     result["http_main_from"] = len(result["http"])
